@@ -235,7 +235,12 @@ def c03_repair(ctx):
 
 
 def c03_marker(ctx):
-    """The persisted backward-projection marker is honoured only in the epoch it was recorded in."""
+    """The persisted backward-projection marker is honoured only in the epoch it was recorded in.
+    NOTE (DESIGN 6b, K2): this clause is derived from TODAY's marker protocol, in which markers are also left behind when a
+    projection was brought up to date by another path - honouring them later repeats work (the seeded change C03).  The same
+    equality loses pending work when a propagation was cancelled or never started (known finding K2, rule C01.u).  A repair
+    of K2 has to change the protocol (clear / narrow the marker where a projection becomes up to date); this clause must
+    then be re-derived from the new protocol rather than kept as it is."""
     prog = ctx.prog
     o = ctx.ob("C03.f", "pending-backward-projection/epoch-equality-at-both-sites", "K4+K8",
                "backward projection is entered only when the stored marker equals the caller's epoch (fast path) and the in-lock double check is its exact negation")
